@@ -44,6 +44,24 @@ Theorem C18_listing_complete : forall (A : Type) (idx : index A) g ns items item
   In (ns, items) idx -> In item items -> ns_check g ns = true -> In (ns, item) (query_page idx g None).
 Proof. exact listing_complete_lemma. Qed.
 
+(** the namespace listing of the console (both API versions) names exactly the permitted namespaces
+    that exist, in the stored order — the [is_all] shortcut included *)
+Theorem C18_namespace_list_only_permitted : forall g all id,
+  In (Some id) (namespace_list g all) -> In (Some id) all /\ ns_check g id = true.
+Proof. exact namespace_list_only_permitted_lemma. Qed.
+
+Theorem C18_namespace_list_complete : forall g all id,
+  In (Some id) all -> ns_check g id = true -> In (Some id) (namespace_list g all).
+Proof. exact namespace_list_complete_lemma. Qed.
+
+Theorem C18_namespace_list_is_filter : forall g all,
+  filter (fun e => match e with Some _ => true | None => false end) (namespace_list g all) =
+  filter (fun e => match e with Some id => ns_check g id | None => false end) all.
+Proof. exact namespace_list_is_filter_lemma. Qed.
+
+Theorem C18_is_all_needs_empty_blacklist : forall g k, is_all g = true -> at_blacklist g k = false.
+Proof. exact is_all_needs_empty_blacklist_lemma. Qed.
+
 (** flags <-> group round trip, and the copy user record -> session *)
 Theorem C18_flags_roundtrip : forall g,
   pg_new (get_flags g) (wl g) (bl g) = g /\ set_flags g (get_flags g) = g /\ (get_flags g < 8)%N.
